@@ -242,7 +242,6 @@ def check_model(text, rng, tier):
     out["_ode"], out["_ref"] = ode, ref
     if out["violations"]:
         out["status"] = "violated"
-        out["violations"] = out["violations"][:10]
     return out
 
 
